@@ -1,3 +1,5 @@
+import GenlmModel.Proofs.GenLink.CfgMapValues
+import GenlmModel.Proofs.GenLink.CfgSpawn
 import Batteries.Tactic.Alias
 import GenlmModel.Proofs.UCycle
 import GenlmModel.Proofs.Struct
@@ -34,4 +36,13 @@ alias unary_graph_keeps_every_unary_rule := Genlm.UCycleAux.unaryGraph_arcs
 existence of a cycle of unary rules -/
 alias has_unary_cycle_iff := Genlm.hasUnaryCycle_iff
 alias has_unary_cycle_graph := Genlm.hasUnaryCycle_graph
+
+/-! ## re-checked tie to the source: the definitions REGENERATED from the Python functions on every run
+(`Generated/Builders.lean` / `Generated/Folds.lean`, by `harness/translate.py`) are the hand-written models the theorems here are about -/
+alias gen_CFG_spawn_eq_model := Genlm.gen_CFG_spawn_eq_model
+alias gen_CFG_spawn_start := Genlm.gen_CFG_spawn_start
+alias gen_CFG_separate_start_eq_model := Genlm.gen_CFG_separate_start_eq_model
+alias gen_CFG_rename_eq_model := Genlm.gen_CFG_rename_eq_model
+alias gen_CFG_map_values_eq_model := Genlm.gen_CFG_map_values_eq_model
+alias gen_CFG_map_values_kept_rules := Genlm.gen_CFG_map_values_dropZero
 end Genlm.Props.C07
